@@ -1561,6 +1561,24 @@ func (db *DB) writeWALFrameData(ctx context.Context, f *os.File, data []byte, of
 func (db *DB) buildTxFrameOffsets(walFile *os.File) (_ map[uint32]int64, commit, chksum1, chksum2 uint32, endOffset int64, err error) {
 	m := make(map[uint32]int64)
 
+	// The transaction ends at the last commit frame the writer appended. SQLite
+	// can repeat the commit frame to pad the WAL to a sector boundary
+	// (synchronous=FULL without powersafe overwrite), each copy being a commit
+	// frame of its own. Remember the state at the latest commit frame and keep
+	// reading until the valid frames end.
+	var last struct {
+		m                map[uint32]int64
+		commit           uint32
+		chksum1, chksum2 uint32
+		endOffset        int64
+	}
+	done := func() (map[uint32]int64, uint32, uint32, uint32, int64, error) {
+		if last.m == nil {
+			return nil, 0, 0, 0, 0, errNoTransaction
+		}
+		return last.m, last.commit, last.chksum1, last.chksum2, last.endOffset, nil
+	}
+
 	offset := db.wal.offset
 	chksum1, chksum2 = db.wal.chksum1, db.wal.chksum2
 	frame := make([]byte, WALFrameHeaderSize+int64(db.pageSize))
@@ -1569,7 +1587,7 @@ func (db *DB) buildTxFrameOffsets(walFile *os.File) (_ map[uint32]int64, commit,
 		if _, err := internal.ReadFullAt(walFile, frame, offset); err == io.EOF || err == io.ErrUnexpectedEOF {
 			TraceLog.Printf("[buildTxFrames(%s)]: msg=read-error offset=%d size=%d err=%q",
 				db.name, offset, len(frame), err)
-			return nil, 0, 0, 0, 0, errNoTransaction
+			return done()
 		} else if err != nil {
 			return nil, 0, 0, 0, 0, fmt.Errorf("read wal frame: %w", err)
 		}
@@ -1580,7 +1598,7 @@ func (db *DB) buildTxFrameOffsets(walFile *os.File) (_ map[uint32]int64, commit,
 		if db.wal.salt1 != salt1 || db.wal.salt2 != salt2 {
 			TraceLog.Printf("[buildTxFrames(%s)]: msg=salt-mismatch offset=%d hdr-salt1=%08x hdr-salt2=%08x frame-salt1=%08x frame-salt2=%08x",
 				db.name, offset, db.wal.salt1, db.wal.salt2, salt1, salt2)
-			return nil, 0, 0, 0, 0, errNoTransaction
+			return done()
 		}
 
 		// Verify checksum
@@ -1591,16 +1609,21 @@ func (db *DB) buildTxFrameOffsets(walFile *os.File) (_ map[uint32]int64, commit,
 		if chksum1 != fchksum1 || chksum2 != fchksum2 {
 			TraceLog.Printf("[buildTxFrames(%s)]: msg=chksum-mismatch offset=%d chksum1=%08x chksum2=%08x frame-chksum1=%08x frame-chksum2=%08x",
 				db.name, offset, chksum1, chksum2, fchksum1, fchksum2)
-			return nil, 0, 0, 0, 0, errNoTransaction
+			return done()
 		}
 
 		// Save the offset for the last version of the page to a map.
 		pgno := binary.BigEndian.Uint32(frame[0:])
 		m[pgno] = offset
 
-		// End of transaction, exit loop and return.
+		// End of a transaction (or a copy of its commit frame).
 		if commit = binary.BigEndian.Uint32(frame[4:]); commit != 0 {
-			return m, commit, chksum1, chksum2, offset + int64(len(frame)), nil
+			last.m = make(map[uint32]int64, len(m))
+			for k, v := range m {
+				last.m[k] = v
+			}
+			last.commit, last.chksum1, last.chksum2 = commit, chksum1, chksum2
+			last.endOffset = offset + int64(len(frame))
 		}
 
 		// Move to the next frame.
